@@ -146,6 +146,9 @@ pub fn vb(v: &Value) -> bool {
 pub fn dy(v: &Value) -> f64 {
     let a = va(v);
     let k = vi(&a[1]);
+    if k == 99 {
+        return -0.0; // the float32 negative zero (see voicegen)
+    }
     if k < 0 {
         // decimal fraction n / 10^(-k): both operands are exact doubles, IEEE division rounds correctly, so this is the
         // double nearest to the decimal text (checked against str::parse below)
